@@ -131,6 +131,15 @@ CHECKS = [
              "CPU time in the process group, a slow run is inconclusive. Per-handler streams are harness-defined. Private reads: "
              "Mediator._event_handlers_list/_state_handler/_scheduler/_input_output_handler, Scheduler._last_returned_event, "
              "MultiProcessMediator._os_processes."},
+    {"id": "C01", "engine": "hypothesis-runner", "design_ref": "DESIGN.md §3 C01",
+     "technique": "seeded Monte-Carlo replicas of generated (variant, seed, initial configuration) inputs with a statistical oracle: replica z-test of binned observables against independent reference distributions (shipped reversible-MC tables, numerical quadrature, closed forms); exact predicates for hard-core bounds",
+     "text": "Every runnable algorithmic variant (Coulomb atoms power/cell-bounded (+cell-veto thorough), five dipole variants incl. three lifting "
+             "schemes and root/leaf switching (+cell-bounded thorough), single water, single hard-disk dipole, harness-built soft pair with "
+             "the invertible handler at beta 0.5/2 on heap and list schedulers) is run in 16 (quick) / 40 (thorough) independent replicas; "
+             "observables read from the output handlers' files are binned into 8 reference-equiprobable bins; violation iff max|z|>6.5.",
+     "note": "Statistical decision, not proof: detects bin-probability shifts of ~0.03 (quick) / ~0.012 (thorough); perturbations below ~1% of a bin "
+             "are left to C02-C05. Trusted: shipped Reference*.dat tables, harness quadrature, replica independence (own seed and random "
+             "initial configuration, 10% burn-in). Deterministic at a fixed VERIF_SEED."},
 ]
 
 _ALL = ["C%02d" % i for i in range(1, 21)]
